@@ -57,6 +57,17 @@ class ConfirmingCommunicator(kiwipy.LocalCommunicator):
         return result
 
 
+class AnonymousCommunicator(kiwipy.LocalCommunicator):
+    """Histories continue the same pid several times while earlier instances are still alive; the identifiers under which
+    processes subscribe are not this check's business (C16), so subscriptions are taken anonymously here."""
+
+    def add_rpc_subscriber(self, subscriber, identifier=None):
+        return super().add_rpc_subscriber(subscriber, None)
+
+    def add_broadcast_subscriber(self, subscriber, identifier=None):
+        return super().add_broadcast_subscriber(subscriber, None)
+
+
 def enumerate_cases(tier, scope):
     configs = [(p, loader, via, lc) for p in ('none', 'memory', 'pickle') for loader in ('default', 'custom') for via in ('direct', 'comm') for lc in ('none', 'given')]
     singles = []
@@ -168,7 +179,7 @@ def execute(case):
         loader = custom if case['loader'] == 'custom' else None
         with loop.as_running():
             # what the caller puts into the load context reaches the continued processes: here a communicator of its own
-            ctx_comm = kiwipy.LocalCommunicator() if case.get('load_context') == 'given' else None
+            ctx_comm = AnonymousCommunicator() if case.get('load_context') == 'given' else None
             load_context = persistence.LoadSaveContext(harness_note='given', communicator=ctx_comm) if case.get('load_context') == 'given' else None
             launcher = process_comms.ProcessLauncher(loop=None if case.get('launcher_loop') == 'none' else loop, persister=persister, load_context=load_context, loader=loader)
             comm = None
